@@ -18,9 +18,9 @@ K3 == {kA, kB, kAmS}
 I_2 == {Coef(2, 0, 0)}
 I_q == {Coef(1, 0, 0), Coef(2, 0, 0), Coef(1000, 0, 0)}
 I_t == {Coef(1, 0, 0), Coef(2, 0, 0), Coef(10, 0, 0), Coef(1000, 0, 0)}
-D_q == {Coef(0, 1, 5), Coef(2, 2, 25)}
+D_q == {Coef(2, 2, 25)}
 D_t == {Coef(0, 1, 5), Coef(1, 1, 5), Coef(2, 2, 25), Coef(0, 3, 125)}
-N_q == {Coef(2, 0, 0), Coef(1, 0, 0), Coef(0, 1, 5)}
+N_q == {Coef(2, 0, 0), Coef(0, 1, 5)}
 N_t == {Coef(1, 0, 0), Coef(2, 0, 0), Coef(1000, 0, 0), Coef(0, 1, 5)}
 None == {}
 
